@@ -42,20 +42,25 @@ func NewAdaptedClientPool(opts AdaptedClientPoolOpts) *AdaptedClientPool {
 // Instead of trying to synchronize such procedures, however, it's better to have a properly defined lifecycle
 // for each possible target, with clear logic about when it gets added or removed to/from all the components of a bridge.
 func (p *AdaptedClientPool) New(targetName, dialTarget string, opts ...grpc.DialOption) (*AdaptedClientPoolController, error) {
-	controllerAny, loaded := p.conns.LoadOrStore(targetName, new(AdaptedClientPoolController))
-	if loaded {
+	// Reserve the name using a placeholder without a client, which is never modified after being stored
+	// and is replaced with the complete controller only once the client has been created.
+	if _, loaded := p.conns.LoadOrStore(targetName, new(AdaptedClientPoolController)); loaded {
 		return nil, ErrAlreadyDialed
 	}
 
 	conn, err := p.opts.NewClientFunc(dialTarget, slices.Concat(p.opts.DefaultOpts, opts)...)
 	if err != nil {
+		// Release the reservation, otherwise the name would stay taken forever without a usable connection.
+		p.conns.Delete(targetName)
 		return nil, err
 	}
 
-	controller := controllerAny.(*AdaptedClientPoolController)
-	controller.pool = p
-	controller.target = targetName
-	controller.client = AdaptClient(conn)
+	controller := &AdaptedClientPoolController{
+		pool:   p,
+		target: targetName,
+		client: AdaptClient(conn),
+	}
+	p.conns.Store(targetName, controller)
 
 	return controller, nil
 }
@@ -66,7 +71,13 @@ func (p *AdaptedClientPool) Get(target string) (ClientConn, bool) {
 		return nil, false
 	}
 
-	return controller.(*AdaptedClientPoolController).client, true
+	client := controller.(*AdaptedClientPoolController).client
+	if client == nil {
+		// Name reserved by New(), but the client hasn't been created yet.
+		return nil, false
+	}
+
+	return client, true
 }
 
 // AdaptedClientPoolController wraps an AdaptedClientConn created using a DialedPool,
